@@ -3,7 +3,7 @@ C11 — witnesses.
 (1) Non-vacuity: a concrete conversion satisfying `Conv.Local`, and concrete texts satisfying the
     hypotheses of the C11 theorems.
 (2) The misbehaviour of the pinned source (`Fixes.pinned` = the model with none of the repairs),
-    decided on the model: the findings C11-F1..F4, and the same inputs under the repaired source.
+    decided on the model: the findings C11-F1..F5, and the same inputs under the repaired source.
 -/
 import DmlcModel.Props.C11
 
@@ -96,5 +96,10 @@ example : ((Format.libfm 32 0).parseBlock Fixes.pinned convSkip (docFm ++ [0]) 0
   decide
 example : ((Format.libfm 32 0).parseBlock Fixes.repaired convSkip (docFm ++ [0]) 0 docFm.length).map (·.index) = .ok [] := by
   decide
+
+/-- "1,2\n" followed by a UTF-8 BOM as the last bytes of the block: C11-F5, the pinned line loop runs past the end -/
+def docBom : Bytes := [49, 44, 50, 10, 239, 187, 191]
+example : pinnedRows (.csv csvPrm) docBom = .error .oob := by decide
+example : repairedRows (.csv csvPrm) docBom = .ok [crow [0, 1] [1, 2]] := by decide
 
 end DmlcModel.Props.C11Witness
